@@ -342,4 +342,44 @@ theorem decoded_pattern (d : Dialect) (op : LikeOp) (a rest : Str) (ha : likeAdm
       have := fin .ansi (fun c hc cs => patChar_ansi d hf c (h0 c hc) cs)
       simpa [hpm] using this
 
+/-! ### the LIKE clause as a statement position (C02) -/
+
+theorem tokens_likePattern (d : Dialect) (op : LikeOp) (a rest : Str) (ha : likeAdm d a = true)
+    (hpre : ∀ c ∈ op.pre, safeChar c = true) (hpost : ∀ c ∈ op.post, safeChar c = true)
+    (hr : rest.head? ≠ some 39) :
+    tokens d (likePattern d op a ++ rest) = (tokens d rest).map (Tok.str (op.pre ++ likeQ a ++ op.post) :: ·) := by
+  have hl := decoded_pattern d op a rest ha hpre hpost hr
+  rw [likePattern_body, quoteStr_eq] at hl ⊢
+  by_cases h : d = .postgres ∧ 92 ∈ op.pre ++ a.flatMap (patChar d) ++ op.post
+  · rw [if_pos h] at hl ⊢
+    rw [List.cons_append, List.cons_append] at hl ⊢
+    exact tokens_of_lex d 69 _ _ rest (Or.inr ⟨h.1, Or.inl rfl, by simp⟩) hl (by simp; omega)
+  · rw [if_neg h] at hl ⊢
+    rw [List.cons_append] at hl ⊢
+    exact tokens_of_lex d 39 _ _ rest (Or.inl rfl) hl (by simp; omega)
+
+/-- tokens of `(expr LIKE (<pattern>) ESCAPE <esc>)` -/
+def likeToks (expr pat esc : Str) : List Tok :=
+  [.punct 40, .word expr, .word likeOpName, .punct 40, .str pat, .punct 41,
+   .word [69, 83, 67, 65, 80, 69], .str esc, .punct 41]
+
+theorem tokens_likeClause (d : Dialect) (op : LikeOp) (expr a : Str) (ha : likeAdm d a = true)
+    (hexpr : identLike expr = true)
+    (hpre : ∀ c ∈ op.pre, safeChar c = true) (hpost : ∀ c ∈ op.post, safeChar c = true) (hesc : op.esc = [92]) :
+    tokens d (likeClause d op expr a) = some (likeToks expr (op.pre ++ likeQ a ++ op.post) [92]) := by
+  simp only [likeClause, likeEscFmt, likeFmt, fmt, List.append_nil, List.append_assoc, hesc]
+  rw [List.singleton_append, tokens_punct d 40 _ (by decide),
+    tokens_ident d expr hexpr _ (by simp [okAfter, isWordChar]),
+    List.singleton_append, tokens_space d 32 _ (by decide),
+    tokens_ident d likeOpName (by decide) _ (by simp [okAfter, isWordChar]),
+    tokens_skel d [32, 40] _ (by decide) (Or.inl (by decide)),
+    tokens_likePattern d op a _ ha hpre hpost (by simp),
+    List.singleton_append, tokens_punct d 41 _ (by decide),
+    tokens_skel d _ _ (by decide) (Or.inl (by decide)),
+    tokens_string d [92] _ (by cases d <;> simp [admissible]) (by simp),
+    tokens_close]
+  have e1 : skelToks [32, 40] [] = [Tok.punct 40] := by decide
+  have e2 : skelToks [32, 69, 83, 67, 65, 80, 69, 32] [] = [Tok.word [69, 83, 67, 65, 80, 69]] := by decide
+  simp [e1, e2, likeToks]
+
 end SqlObjVerif.Like
